@@ -48,7 +48,8 @@ COMPONENTS = {
              "run_remodel_restore.main", "run_remodel.main (Dispatcher, operations, pandas read_csv/to_csv)",
              "hed.tools.util.io_util", "shutil.copy2/copystat", "os.makedirs/os.walk", "json.dump/load",
              "the scratch file system"],
-    "stub": ["datetime.now (simulated clock)", "the user's modifications between operations (direct file-system edits)"],
+    "stub": ["concurrent.futures.ThreadPoolExecutor / threading.Thread as seen by the modules under test (tasks run by the "
+             "simulated process at a seeded moment and order; the shipped code starts no threads)", "datetime.now (simulated clock)", "the user's modifications between operations (direct file-system edits)"],
 }
 ASSUMPTIONS = [
     "crash model is process kill: delivered write steps stay, un-issued writes are lost; EIO/ENOSPC surface as OSError",
@@ -129,6 +130,11 @@ def _gen_tree(g):
     if g.chance(0.3):
         files.append({"path": "derivatives/other/sub-01_task-go_events.tsv", "kind": "events",
                       "seed": g.randrange(10 ** 6), "size": 120})
+    if g.chance(0.25):
+        # directories named like components of the path that leads to the data root (".../shm/<scratch>/data")
+        files.append({"path": "sub-01/data/sub-01_task-go_run-9_events.tsv", "kind": "events", "seed": g.randrange(10 ** 6), "size": 150})
+        if g.chance(0.5):
+            files.append({"path": "data/shm/loc_events.tsv", "kind": "events", "seed": g.randrange(10 ** 6), "size": 80})
     if g.chance(0.3):
         # same basename in two directories: the backup must keep them apart
         files.append({"path": "extra/a/dup_events.tsv", "kind": "events", "seed": g.randrange(10 ** 6), "size": 90})
@@ -138,7 +144,7 @@ def _gen_tree(g):
         if f["path"] not in names:
             names.add(f["path"])
             out.append(f)
-    return out[:10]
+    return out[:12]
 
 
 def _gen_selection(g):
@@ -490,6 +496,10 @@ def execute(sc, script=None):
     model_dir = os.path.join(W["base"], "models")
     os.makedirs(model_dir, exist_ok=True)
     nontrivial = False
+    # threads the code under test might start run as seeded tasks of the simulated process (no-op for code without threads)
+    import hed.tools.remodeling.dispatcher as _disp
+    thread_undo, thread_counts = stubs.bind_thread_seams(
+        [bm, W["io_util"], _disp, W["cli_backup"], W["cli_restore"], W["cli_remodel"]], sim)
     if sc.get("root_link"):
         world.probe("root_given_through_symlink")
     try:
@@ -529,6 +539,10 @@ def execute(sc, script=None):
         fs.uninstall()
         bm.datetime = saved_dt
         W["io_util"].datetime = saved_dt2
+        for (m_, n_, v_) in thread_undo:
+            setattr(m_, n_, v_)
+    if thread_counts["tasks"]:
+        world.probe("library_thread_tasks_simulated", thread_counts["tasks"])
     for k in ("listing_permuted", "io_error_raised"):
         if fs.counts.get(k):
             world.probe(k, fs.counts[k])
@@ -751,13 +765,21 @@ def _do_remodel(world, o, oi, model_dir):
         visit = [v for v in visit if W["io_util"].get_task_from_file(v)]
     elif o.get("tasks"):
         visit = [v for v in visit if W["io_util"].get_task_from_file(v) in o["tasks"]]
-    if not visit or any(v not in rec for v in visit):
+    if not visit:
         world.probe("remodel_skipped_backup_does_not_cover")
         return False
+    covered = all(v in rec for v in visit)
     model_path = os.path.join(model_dir, "model-%d.json" % o["model"])
     with real_open(model_path, "w") as f:
         json.dump(MODELS[o["model"]], f)
     p1 = world.run_proc("remodel", _remodel_fn(world, o, model_path))
+    if not covered:
+        # the backup lacks a file the run visits: the run may refuse (there is no backed-up original to start from); if it
+        # does run, it is judged like any other - twice equals once
+        if p1.state != "done":
+            world.probe("remodel_refused_backup_does_not_cover")
+            return False
+        world.probe("remodel_ran_although_backup_does_not_cover")
     if p1.state != "done":
         if world.crashed_names:
             return False
